@@ -15,6 +15,14 @@ type symv struct {
 	k types.BasicKind
 }
 
+// opaqstr is the string form of a modelled value whose content is symbolic
+// (e.g. CPUSet.String() of a symbolic set). It supports ==, != and the
+// matching modelled parser only; anything else is unsupported.
+type opaqstr struct {
+	tag string
+	e   *Expr
+}
+
 // symstr is a string of concrete length whose bytes may be symbolic.
 // Each element is uint8 or symv{k: Uint8}.
 type symstr []value
@@ -180,7 +188,7 @@ func fromExpr(e *Expr, k types.BasicKind) value {
 
 func isSym(v value) bool {
 	switch v.(type) {
-	case symv, symstr:
+	case symv, symstr, opaqstr:
 		return true
 	}
 	return false
@@ -188,6 +196,12 @@ func isSym(v value) bool {
 
 // symBinop implements binop when at least one operand is symbolic.
 func symBinop(i *interpreter, op token.Token, x, y value) value {
+	if _, ok := x.(opaqstr); ok {
+		panic(unsupported{"operator " + op.String() + " on the string form of a symbolic cpuset"})
+	}
+	if _, ok := y.(opaqstr); ok {
+		panic(unsupported{"operator " + op.String() + " on the string form of a symbolic cpuset"})
+	}
 	// strings
 	_, xs := x.(symstr)
 	_, ys := y.(symstr)
@@ -208,7 +222,7 @@ func symBinop(i *interpreter, op token.Token, x, y value) value {
 		w := kindWidth(k)
 		if kindSigned(ky) {
 			if i.branch(bvCmp("bvslt", ey, bvConst(ey.sort.w, 0))) {
-				panic(targetPanic{rtError("negative shift amount")})
+				panic(targetPanic{v: rtError("negative shift amount")})
 			}
 		}
 		// bring count to width w, saturating
@@ -281,7 +295,7 @@ func symBinop(i *interpreter, op token.Token, x, y value) value {
 		return fromExpr(bvBin("bvmul", ex, ey), k)
 	case token.QUO, token.REM:
 		if i.branch(mkEq(ey, bvConst(ey.sort.w, 0))) {
-			panic(targetPanic{rtError("integer divide by zero")})
+			panic(targetPanic{v: rtError("integer divide by zero")})
 		}
 		if op == token.QUO {
 			return fromExpr(bvBin(pick("bvsdiv", "bvudiv"), ex, ey), k)
